@@ -478,7 +478,20 @@ class Check:
         text = "\n".join(st.ops) + "\n"
         hbin = self.stream_bin(st)
         module = None if st.nomodel else (st.module or self.module)
-        judge_history = st.oracle or self.judge_history
+        raw_judge = st.oracle or self.judge_history
+
+        def judge_history(ops, lines):
+            """the oracle, robust against a result line cut short by a crash of the harness: such a
+            line is dropped (the crash itself is reported); a line the oracle cannot interpret
+            otherwise is a finding at that line, not a crash of the check"""
+            try:
+                return raw_judge(ops, lines)
+            except Exception as e:
+                try:
+                    r = raw_judge(ops, lines[:-1]) if lines else None
+                except Exception:
+                    r = (max(0, len(lines) - 1), "the oracle cannot interpret the transcript (%s: %s)" % (type(e).__name__, e))
+                return r
         impl, rc, err = run_proc([hbin], text)
         info = {"ops": len(st.ops), "impl_rc": rc}
         self.evals += len(st.ops)
